@@ -12,7 +12,7 @@ from . import common as C
 MONITORS = ("math", "route", "rw", "mut")
 LEVEL = "exploration"
 PLAN = {"quick": {"cases": 1200, "shards": 16, "timeout": 900},
-        "thorough": {"cases": 20000, "shards": 32, "timeout": 10800}}
+        "thorough": {"cases": 5000, "shards": 32, "timeout": 10800}}
 RULE = ("the G-hist operation histories of C09 (DAG pools with shared sub-expression objects, long-lived Point objects, derivative "
         "objects, outputs of as_expression()/_normalize() kept by the 'caller'); before the first and after every operation a snapshot of "
         "every existing object is compared with its former self: reflected structure with parameter types, repr, hash, == against a "
